@@ -20,6 +20,10 @@ subprocess.run(['find', WORK, '-type', 'f', '-exec', 'touch', '{}', '+'])
 env = dict(os.environ, CARGO_TARGET_DIR=os.path.join(WORK, 'target'), CARGO_NET_OFFLINE='true')
 
 targets = {'lib.rs': 'l2', 'iter.rs': 'iter'}
+tmpl_override = next((a.split('=')[1] for a in sys.argv if a.startswith('--template=')), None)
+if tmpl_override:
+    # e.g. --template=l1: the pointer layer in heap-passing form spans three files
+    targets = {rel: tmpl_override for rel in ('entry.rs', 'lib.rs', 'iter.rs')}
 mutants = []
 for rel, tmpl in targets.items():
     gen = vgen.expand(vengine.TEMPLATES[tmpl], os.path.join(REPO, 'src'))
@@ -88,7 +92,7 @@ for i, (rel, tmpl, fname, a, b, rep, desc) in enumerate(mutants[:maxn]):
     res.append({'file': rel, 'line': line, 'function': fname, 'mutation': desc, 'verdict': verdict,
                 'failed': sorted({'%s:%s' % (f['function'], f['kind']) for f in r['failures']})[:4]})
     print('%s:%d %s | %s | %s' % (rel, line, fname, desc, verdict), flush=True)
-json.dump(res, open(os.path.join(HERE, '.work', 'auto_mutate%s.json' % ('_' + '_'.join(only) if only else '')), 'w'), indent=1)
+json.dump(res, open(os.path.join(HERE, '.work', 'auto_mutate%s%s.json' % ('_' + tmpl_override if tmpl_override else '', '_' + '_'.join(only) if only else '')), 'w'), indent=1)
 tot = len(res)
 print('compiling mutants: %d, rejected %d, undecided %d, survived %d (%.0fs)' % (tot, sum(r['verdict'] == 'rejected' for r in res),
       sum(r['verdict'].startswith('undecided') for r in res), sum(r['verdict'] == 'SURVIVED' for r in res), time.time() - t0))
